@@ -6,9 +6,7 @@ open Ynca.Srv
 /-! ### ingestion -/
 
 /-- a value line: `@S:F=V` with `V ≠ "?"`, handled as data by `fill_from_file` -/
-def IsValueLine (cmd : Option Cmd) (raw : String) (c : Cmd) : Prop :=
-  lineToCommand (cleanLine raw) = some c ∧ c.value ≠ "?" ∧
-  (cmd = none ∨ (hasMarker (cleanLine raw) RESTRICTED = false ∧ hasMarker (cleanLine raw) UNDEFINED = false))
+abbrev IsValueLine := @Ynca.Srv.IsValueLine
 
 /-- **last value wins**: after a value line the store answers with exactly that value for that key, every other key is untouched -/
 theorem C18_ingest_value (st : Store) (cmd : Option Cmd) (raw : String) (c : Cmd) (h : IsValueLine cmd raw c) :
@@ -26,13 +24,10 @@ theorem C18_ingest_keeps_values (st : Store) (cmd : Option Cmd) (raw : String) (
 /-! ### ordinary GET / PUT behave like an abstract map -/
 
 /-- functions with special coupling in the handlers (by name), from the statement plus the handlers' tables -/
-def specialName (T : Tables) (f : String) : Bool :=
-  ["PWR", "PWRB", "STRAIGHT", "SOUNDPRG", "PUREDIRMODE", "DIRMODE", "PLAYBACK", "MEM", "REMOTECODE", "INPNAME", "SCENENAME"].contains f ||
-  T.multi.any (·.1 == f) || T.related.any (·.1 == f)
+abbrev specialName := @Ynca.Srv.specialName
 
 /-- an ordinary PUT: no special function, not a relative step on a volume function, not an error-marker text -/
-def OrdinaryPut (T : Tables) (f v : String) : Prop :=
-  specialName T f = false ∧ ((f = "VOL" ∨ f = "ZONEBVOL") → relStep v = none) ∧ isError v = false
+abbrev OrdinaryPut := @Ynca.Srv.OrdinaryPut
 
 /-- **GET**: the stored value as one well-formed line, or one error line when there is none; the store is not modified -/
 theorem C18_get_ordinary (T : Tables) (st : Store) (s f : String) (hf : specialName T f = false) :
@@ -63,7 +58,7 @@ theorem C18_put_unknown (T : Tables) (va : VolArith) (st : Store) (s f v : Strin
 /-! ### every reply is a well-formed YNCA line; multi-value queries answer only with stored members -/
 
 /-- `@S:F=V`, or one of the two error markers -/
-def WellFormed (l : String) : Prop := isError l = true ∨ ∃ s f v, l = valueLine s f v
+abbrev WellFormed := @Ynca.Srv.WellFormed
 
 theorem C18_get_wellformed (T : Tables) (st : Store) (s f : String) :
     ∀ l ∈ handleGet T.multi st s f, WellFormed l :=
@@ -76,7 +71,8 @@ theorem C18_put_wellformed (T : Tables) (va : VolArith) (st : Store) (s f v : St
 /-- every value line a GET produces carries a value the store holds for that subunit (or the STRAIGHT override `On`) -/
 theorem C18_get_only_stored (T : Tables) (st : Store) (s f : String) :
     ∀ l ∈ handleGet T.multi st s f, isError l = true ∨
-      ∃ g, l = valueLine s g (getData st s g) ∧ isError (getData st s g) = false ∨ l = valueLine s "STRAIGHT" "On" :=
+      (∃ g, l = valueLine s g (getData st s g) ∧ isError (getData st s g) = false) ∨
+      l = valueLine s "STRAIGHT" "On" :=
   get_only_stored T st s f
 
 end Ynca.C18
